@@ -191,9 +191,14 @@ fn gen_idents(rng: &mut Rng, wild: bool) -> Vec<Identifier> {
             if wild && rng.chance(1, 6) {
                 rng.pick(&wpool).clone()
             } else if rng.chance(1, 10) {
-                num(log_uniform(rng, u64::MAX))
+                let v = log_uniform(rng, u64::MAX);
+                num(rng.note(v))
             } else if rng.chance(1, 15) {
-                num(boundary_value(rng, u64::MAX))
+                let v = boundary_value(rng, u64::MAX);
+                num(rng.note(v))
+            } else if rng.chance(1, 12) {
+                // the same numeric identifier again, or its neighbour (adjacent values above 2^53 included)
+                num(rng.echo())
             } else {
                 rng.pick(&pool).clone()
             }
@@ -292,7 +297,8 @@ const TAGS: &[&str] = &[
     // numeric identifiers at the digit-count and 64-bit boundaries, next to hyphen/digit-initial alphanumerics
     "9999999999999999999", "10000000000000000000", "18446744073709551615", "18446744073709551616", "99999999999999999999",
     "10000000000000000000.-", "--", "10a", "1-", "--1", "000000000000000000001", "alpha.beta.gamma.delta.1.2.3.4.5",
-    "1048576", "16777216.4294967296",
+    "1048576", "16777216.4294967296", "9007199254740992", "9007199254740993", "18446744073709551614", "9223372036854775807",
+    "9223372036854775808",
 ];
 const BUILDS: &[&str] = &["build", "1", "b.7", "-", "exp.sha.5114f85", "7.7", "b.b", "b.1.b"];
 
@@ -547,6 +553,15 @@ pub fn gen_range_text(rng: &mut Rng, garbage: bool) -> String {
     s
 }
 
+fn no_hyphen(rng: &mut Rng, fam: &[String]) -> String {
+    loop {
+        let f = rng.pick(fam);
+        if !f.contains(" - ") && !f.contains("||") {
+            return f.clone();
+        }
+    }
+}
+
 /// a range text with `n` alternatives in one of four styles (bare `||` as `Display` prints it, spaced,
 /// two-sided alternatives, mixed operators)
 fn long_range_text(rng: &mut Rng, n: usize, style: usize) -> String {
@@ -583,6 +598,8 @@ fn chain_big() -> Vec<&'static str> {
         "0.0.0-0",
         "0.0.0",
         "1.0.0-0",
+        "1.0.0-9007199254740992",
+        "1.0.0-9007199254740993",
         "1.0.0-a",
         "1.0.0-a.0",
         "1.0.0-a.0.0",
@@ -1105,6 +1122,27 @@ pub fn run_stream(name: &str, thorough: bool, rng: &mut Rng, o: &mut Out) {
                     o.maxmin(&t, &r, &vs);
                 }
             }
+            // a comparator whose version text is right at MAX_LENGTH, with and without the hyphen
+            for total in [250usize, 254, 255, 256, 257, 258, 300] {
+                for (pre, post) in [("", ""), (">=", " <2.0.0"), ("<=", ".1 || 2.x"), ("^", ""), ("~", " || 3"), ("1.0.0 - ", "")] {
+                    for hy in ["", "-"] {
+                        let v = format!("1.2.3{}{}", hy, "a".repeat(total.saturating_sub(5 + hy.len())));
+                        let t = format!("{}{}{}", pre, v, post);
+                        o.rparse(&t);
+                        o.rround(&t);
+                        o.serder(&t);
+                        if let Ok(r) = try_range(&t) {
+                            o.minv(&t, &r);
+                            for p in ["1.2.3", "1.2.4", "0.0.0", "2.5.0"] {
+                                o.sat(&t, &r, &try_version(p).unwrap());
+                            }
+                            if let Ok(v2) = try_range(">=1.0.0 <3.0.0") {
+                                o.setops(&t, &r, ">=1.0.0 <3.0.0", &v2);
+                            }
+                        }
+                    }
+                }
+            }
             for i in 0..40 * scale {
                 // two comparator lists of 100-250 bytes each: the joined text exceeds 256 bytes
                 let (na, nb) = (*rng.pick(&[8usize, 14, 22]), *rng.pick(&[8usize, 14, 22]));
@@ -1115,6 +1153,72 @@ pub fn run_stream(name: &str, thorough: bool, rng: &mut Rng, o: &mut Out) {
                 let grid = version_grid(rng, &printed, 2);
                 for _ in 0..8 {
                     o.c02(&a, &b, rng.pick(&grid));
+                }
+            }
+        }
+        "related" => {
+            // semantic coincidences: comparators written differently whose bounds meet after desugaring
+            // (`~1.2` / `<1.3.0-0` / `1.2.x` / `>=1.2.0` / `1.2.3 - 1.3` …), paired with each other
+            for _ in 0..700 * scale {
+                let (a, b, c) = (gen_component(rng, false).min(MAX - 2), gen_component(rng, false).min(MAX - 2), gen_component(rng, false).min(MAX - 2));
+                let tags = ["", "", "-0", "-alpha", "-alpha.0", "-rc.1", "-1"];
+                let tag = *rng.pick(&tags);
+                let tag2 = *rng.pick(&tags);
+                let fam: Vec<String> = vec![
+                    format!("~{}.{}", a, b), format!("^{}.{}.{}", a, b, c), format!("{}.{}.x", a, b), format!("{}.x", a),
+                    format!("<{}.{}.0-0", a, b + 1), format!("<{}.0.0-0", a + 1), format!(">={}.{}.0", a, b), format!(">={}.{}.{}{}", a, b, c, tag),
+                    format!("<={}.{}", a, b), format!(">{}.{}", a, b), format!("<{}.{}.{}{}", a, b, c + 1, tag2), format!("={}.{}.{}{}", a, b, c, tag),
+                    format!("{}.{}.{} - {}.{}", a, b, c, a, b + 1), format!("{}.{} - {}", a, b, a), format!(">{}.{}.{}{}", a, b, c, tag),
+                    format!("<={}.{}.{}{}", a, b, c, tag2), format!("~{}.{}.{}{}", a, b, c, tag), format!("^{}.{}", a, b), format!("<{}.{}.{}", a, b, c),
+                    format!(">={}.{}.{}-0", a, b, c), format!("<{}", a + 1), format!(">={}", a), format!("{}.{}.{}{} || {}.{}.{}", a, b, c, tag, a, b, c + 1),
+                    "*".to_string(), "x".to_string(), format!(">{}.{}.{}", a, b, c), format!("<={}.{}.{}{}", a, b, c + 1, tag2),
+                    format!("<{}.{}.{}{}", a, b, c, tag2), format!(">={}.{}.{}{}", a, b, c, tag2), format!("^{}.{}.x", a, b), format!("~{}", a),
+                ];
+                // the same lower (or upper) bound in two alternatives with different other sides, both orders
+                let lowers = [format!(">{}.{}.{}", a, b, c), format!(">={}.{}.{}{}", a, b, c, tag), format!(">{}.{}.{}{}", a, b, c, tag), format!(">={}.{}", a, b)];
+                let uppers = [format!("<{}.{}.{}{}", a, b, c + 1, tag2), format!("<={}.{}.{}{}", a, b, c + 1, tag2), format!("<{}.{}.0", a, b + 1), format!("<{}.0.0-0", a + 1), format!("<={}.{}.{}", a, b, c + 1)];
+                for _ in 0..2 {
+                    let (l1, l2) = (rng.pick(&lowers).clone(), rng.pick(&lowers).clone());
+                    let (u1, u2) = (rng.pick(&uppers).clone(), rng.pick(&uppers).clone());
+                    for t in [
+                        format!("{} {} || {}", l1, u1, l1), format!("{} || {} {}", l1, l1, u1), format!("{} {} || {} {}", l1, u1, l1, u2),
+                        format!("{} {} || {} {}", l1, u1, l2, u1), format!("{} || {} {}", u1, l1, u1), format!("{} {} || {}", l1, u1, l2),
+                    ] {
+                        if let Ok(r) = try_range(&t) {
+                            o.minv(&t, &r);
+                            let grid = version_grid(rng, &r.to_string(), 0);
+                            let vs: Vec<Version> = (0..7).map(|_| rng.pick(&grid).clone()).collect();
+                            o.maxmin(&t, &r, &vs);
+                            o.sat(&t, &r, rng.pick(&grid));
+                        }
+                    }
+                }
+                for _ in 0..6 {
+                    let x = rng.pick(&fam).clone();
+                    let y = rng.pick(&fam).clone();
+                    let (tx, ty) = match rng.below(7) {
+                        0 => (format!("{} || {}", x, rng.pick(&fam)), y.clone()),
+                        1 => (x.clone(), format!("{} || {}", rng.pick(&fam), y)),
+                        2 if !x.contains(" - ") && !x.contains("||") => (format!("{} {} || {}", x, no_hyphen(rng, &fam), rng.pick(&fam)), y.clone()),
+                        3 if !y.contains(" - ") && !y.contains("||") => (x.clone(), format!("{} || {} {}", rng.pick(&fam), y, no_hyphen(rng, &fam))),
+                        4 if !x.contains(" - ") && !x.contains("||") => (format!("{} {}", x, no_hyphen(rng, &fam)), y.clone()),
+                        _ => (x.clone(), y.clone()),
+                    };
+                    if let (Ok(rx), Ok(ry)) = (try_range(&tx), try_range(&ty)) {
+                        o.setops(&tx, &rx, &ty, &ry);
+                        o.minv(&tx, &rx);
+                        let printed = format!("{} {}", rx, ry);
+                        let grid = version_grid(rng, &printed, 0);
+                        for _ in 0..4 {
+                            let v = rng.pick(&grid).clone();
+                            o.sat(&tx, &rx, &v);
+                            if !x.contains(" - ") && !y.contains(" - ") && !x.contains("||") && !y.contains("||") {
+                                o.c02(&x, &y, &v);
+                            }
+                        }
+                        let vs: Vec<Version> = (0..6).map(|_| rng.pick(&grid).clone()).collect();
+                        o.maxmin(&tx, &rx, &vs);
+                    }
                 }
             }
         }
@@ -1274,7 +1378,7 @@ pub fn run_stream(name: &str, thorough: bool, rng: &mut Rng, o: &mut Out) {
                 };
                 let printed = r.to_string();
                 let grid = version_grid(rng, &printed, 4);
-                let n = rng.below(9);
+                let n = if rng.chance(1, 8) { *rng.pick(&[16usize, 17, 25, 40, 64]) } else { rng.below(9) };
                 let mut vs: Vec<Version> = (0..n).map(|_| rng.pick(&grid).clone()).collect();
                 if !vs.is_empty() && rng.chance(1, 3) {
                     // duplicates up to build metadata
